@@ -6,7 +6,7 @@ import re
 from typing import Dict, List, Optional, Tuple
 
 from .. import AnalysisError
-from ..astutil import call_chain, chain, self_store
+from ..astutil import call_chain, chain, self_store, expand_locals
 from ..calls import arg_for
 from ..core import Ctx, Report
 from ..framing import aa55_construction_sites
@@ -220,6 +220,27 @@ class _BytesEval:
                         raise AnalysisError("%s stores into byte %s outside the fixed part of the frame" % (fn.short, idx))
                     segs[idx] = self.byte_of(st.value, env, fn)
                     env[tgt.value.id] = ("bytes", segs)
+                    continue
+                if isinstance(tgt, (ast.Tuple, ast.List)) and all(isinstance(t_, ast.Subscript) and isinstance(t_.value, ast.Name) and env.get(t_.value.id, ("",))[0] == "bytes"
+                                                                  and not isinstance(t_.slice, ast.Slice) for t_ in tgt.elts):
+                    # data[2], data[3] = hi, lo   /   = _split_word(offset)  (a helper returning a tuple of byte expressions)
+                    val = st.value
+                    if isinstance(val, ast.Call):
+                        from ..astutil import inline_pure_calls
+                        val = inline_pure_calls(self.res, fn, val)
+                    val = _subst(val, self._scalar_env(env)) if not isinstance(val, (ast.Tuple, ast.List)) else val
+                    if not isinstance(val, (ast.Tuple, ast.List)) or len(val.elts) != len(tgt.elts):
+                        raise AnalysisError("statement %s of %s is not understood by the frame builder analysis" % (norm(st)[:60], fn.short))
+                    for t_, v_ in zip(tgt.elts, val.elts):
+                        try:
+                            idx = self.prog.consteval(_subst(t_.slice, self._scalar_env(env)), fn.module)
+                        except NotConst:
+                            raise AnalysisError("%s stores at a non-constant index %s" % (fn.short, norm(t_.slice)))
+                        segs = list(env[t_.value.id][1])
+                        if not (0 <= idx < len(segs)) or any(isinstance(x, tuple) and x[0] == "payload" for x in segs[:idx + 1]):
+                            raise AnalysisError("%s stores into byte %s outside the fixed part of the frame" % (fn.short, idx))
+                        segs[idx] = self.byte_of(v_, env, fn)
+                        env[t_.value.id] = ("bytes", segs)
                     continue
                 if isinstance(tgt, ast.Subscript) and isinstance(tgt.value, ast.Name) and env.get(tgt.value.id, ("",))[0] == "bytes" \
                         and isinstance(tgt.slice, ast.Slice) and tgt.slice.step is None:
@@ -624,6 +645,23 @@ def template_parts(js: ast.expr) -> Optional[List[Tuple[str, object]]]:
         return None if l is None or r is None else l + r
     if isinstance(js, ast.Call) and isinstance(js.func, ast.Attribute) and js.func.attr == "hex" and not js.args:
         return [("hexbytes", js.func.value)]
+    if isinstance(js, ast.Call) and isinstance(js.func, ast.Name) and js.func.id == "format" and len(js.args) == 2 and isinstance(js.args[1], ast.Constant) \
+            and isinstance(js.args[1].value, str) and re.fullmatch(r"0(\d+)x", js.args[1].value):
+        return [("field", (js.args[0], int(js.args[1].value[1:-1])))]          # format(x, '04x')
+    if isinstance(js, ast.Call) and isinstance(js.func, ast.Attribute) and js.func.attr == "format" and isinstance(js.func.value, ast.Constant) \
+            and isinstance(js.func.value.value, str) and not js.keywords:
+        # '0335{:04x}{:02x}'.format(a, b): automatic numbering only
+        out, args, pos = [], list(js.args), 0
+        for lit, fld in re.findall(r"([^{}]*)(\{[^{}]*\})?", js.func.value.value):
+            if lit:
+                out.append(("lit", lit))
+            if fld:
+                m = re.fullmatch(r"\{:0(\d+)x\}", fld)
+                if not m or pos >= len(args):
+                    return None
+                out.append(("field", (args[pos], int(m.group(1)))))
+                pos += 1
+        return out if pos == len(args) else None
     if isinstance(js, ast.JoinedStr):
         out = []
         for v in js.values:
@@ -655,11 +693,12 @@ def r2_r3(ctx: Ctx, rep: Report):
     nfields = ntemplates = 0
     for fn, call in sites:
         payload = arg_for(call, init, "payload")
+        if payload is not None and template_parts(payload) is None:
+            payload = expand_locals(payload, fn.node)        # payload = '..' + format(..) + ..; super().__init__(payload, ..)
         parts = template_parts(payload) if payload is not None else None
         key = "%s:%s" % (fn.short, norm(payload)[:40] if payload is not None else "?")
         if parts is None:
-            rep.violation("C03.R3", "template:" + key, fn.loc(call), "%s builds an AA55 payload (%s) the template analysis does not understand" % (fn.short, norm(payload)[:60] if payload is not None else "?"))
-            continue
+            raise AnalysisError("%s builds an AA55 payload (%s) the template analysis does not understand (%s)" % (fn.short, norm(payload)[:60] if payload is not None else "?", fn.loc(call)))
         ntemplates += 1
         # ---- R3 length byte
         digits = 0
